@@ -282,6 +282,8 @@ def _child_command(world, cmd, probe=None):
             ret = e.assignTag(cmd["tag"], cmd["name"], cmd["version"], st(cmd.get("stack")))
         elif op == "unassignTag":
             ret = e.unassignTag(cmd["tag"], cmd["name"], cmd.get("version"), st(cmd.get("stack")))
+        elif op == "remove":
+            ret = e.remove(cmd["name"], cmd["version"], recursive=bool(cmd.get("recursive")))
         elif op == "query":
             ret = None
         else:
@@ -354,7 +356,8 @@ def rel_of(f, n, v):
     return "%s/%s/%s" % (f, n, v)
 
 
-def gen_history(rng, ncmds, users=("A",), crash=0.0, rmcache=0.0, query=0.0, noaction=0.08, direct_tag=0.12):
+def gen_history(rng, ncmds, users=("A",), crash=0.0, rmcache=0.0, query=0.0, noaction=0.08, direct_tag=0.12,
+                remove=0.03):
     """A history weighted toward the order-sensitive patterns: few product names, tag - undeclare -
     redeclare, two flavors in one version file, the same product in both stacks."""
     names = rng.sample(NAMES, rng.choice([1, 1, 2, 3]))
@@ -384,6 +387,8 @@ def gen_history(rng, ncmds, users=("A",), crash=0.0, rmcache=0.0, query=0.0, noa
         kind = rng.choice(["declare"] * 5 + ["declare_tag"] * 3 + ["tag_only"] * 3 + ["conflict"] * 2 +
                           ["undeclare"] * 4 + ["undeclare_nov", "untag", "untag", "untag_nov", "vat", "vat_nov"] +
                           (["assign", "assign", "unassign", "unassign_nov"] if rng.random() < direct_tag * 4 else []))
+        if rng.random() < remove:
+            kind = "remove"
         if known and kind not in ("declare", "declare_tag") and rng.random() < 0.75:
             n, v, kf = rng.choice(known)
             if rng.random() < 0.85:
@@ -411,6 +416,12 @@ def gen_history(rng, ncmds, users=("A",), crash=0.0, rmcache=0.0, query=0.0, noa
                      tag=t if kind in ("untag", "untag_nov", "vat", "vat_nov") else None,
                      vat=kind in ("vat", "vat_nov"))
             if kind in ("undeclare", "vat") and (n, v, f) in known and rng.random() < 0.8:
+                known.remove((n, v, f))
+        elif kind == "remove":
+            c.update(op="remove", version=v)
+            if rng.random() < 0.3:
+                c["recursive"] = True
+            if (n, v, f) in known and rng.random() < 0.8:
                 known.remove((n, v, f))
         elif kind == "assign":
             c.update(op="assignTag", tag=t, version=v, stack=stack)
